@@ -47,3 +47,205 @@ pub(crate) fn default_peer_params(remote_addr: IpAddr) -> PeerParams {
 pub(crate) fn runtime() -> tokio::runtime::Runtime {
     tokio::runtime::Builder::new_current_thread().enable_all().build().expect("runtime")
 }
+
+// ---------------------------------------------------------------------------
+// Live-session driver ("peersim"): the harness plays a BGP speaker against
+// the real accept_connection + PeerSession::run over loopback TCP.
+// Rules: one current-thread runtime per explorer worker; barriers, not
+// sleeps (every wait is on an explicit acknowledgement and has a generous
+// timeout whose expiry is a MACHINERY error, never a verdict).
+
+pub(crate) static MACHINERY: std::sync::Mutex<Option<String>> = std::sync::Mutex::new(None);
+
+pub(crate) fn machinery(msg: String) {
+    let mut g = MACHINERY.lock().unwrap();
+    if g.is_none() {
+        eprintln!("vx: MACHINERY ERROR: {msg}");
+        *g = Some(msg);
+    }
+}
+
+pub(crate) fn take_machinery() -> Option<String> {
+    MACHINERY.lock().unwrap().clone()
+}
+
+pub(crate) const WAIT: Duration = Duration::from_secs(20);
+
+pub(crate) struct Daemon {
+    pub(crate) global: GlobalHandle,
+    pub(crate) tables: TableHandle,
+    pub(crate) active_tx: mpsc::UnboundedSender<TcpStream>,
+    _active_rx: mpsc::UnboundedReceiver<TcpStream>,
+}
+
+impl Daemon {
+    pub(crate) fn new(shards: usize) -> Self {
+        let (active_tx, _active_rx) = mpsc::unbounded_channel();
+        Daemon { global: make_global(), tables: make_tables(shards), active_tx, _active_rx }
+    }
+}
+
+pub(crate) struct Conn {
+    pub(crate) stream: Option<TcpStream>,
+    pub(crate) rx: bytes::BytesMut,
+    /// the peer's (harness') codec for this session
+    pub(crate) codec: bgp::PeerCodec,
+    pub(crate) join: Option<tokio::task::JoinHandle<()>>,
+    pub(crate) counter_rx: Arc<MessageCounter>,
+    pub(crate) daemon_open: Option<bgp::Open>,
+    pub(crate) from: IpAddr,
+}
+
+/// Open a TCP connection from `from` and hand the server side to the real
+/// `accept_connection` with `role`.  Ok(None): the daemon refused the connection.
+pub(crate) async fn connect(d: &Daemon, from: IpAddr, role: crate::fsm::Role) -> Result<Option<Conn>, String> {
+    let bind_ip: IpAddr = match from {
+        IpAddr::V4(_) => IpAddr::V4(Ipv4Addr::new(127, 0, 0, 1)),
+        IpAddr::V6(_) => IpAddr::V6(std::net::Ipv6Addr::LOCALHOST),
+    };
+    let listener = tokio::net::TcpListener::bind(SocketAddr::new(bind_ip, 0)).await.map_err(|e| format!("bind listener: {e}"))?;
+    let laddr = listener.local_addr().map_err(|e| e.to_string())?;
+    let sock = match from {
+        IpAddr::V4(_) => tokio::net::TcpSocket::new_v4(),
+        IpAddr::V6(_) => tokio::net::TcpSocket::new_v6(),
+    }
+    .map_err(|e| e.to_string())?;
+    sock.bind(SocketAddr::new(from, 0)).map_err(|e| format!("bind client {from}: {e}"))?;
+    let (client, server) = tokio::join!(sock.connect(laddr), listener.accept());
+    let client = client.map_err(|e| format!("connect: {e}"))?;
+    let (server, _) = server.map_err(|e| format!("accept: {e}"))?;
+    let _ = client.set_nodelay(true);
+    let _ = server.set_nodelay(true);
+    let Some(session) = accept_connection(&d.global, &d.tables, server, role).await else {
+        return Ok(None);
+    };
+    let counter_rx = Arc::clone(&session.counter_rx);
+    let global = d.global.clone();
+    let active_tx = d.active_tx.clone();
+    let join = tokio::spawn(async move { session.run(global, active_tx).await });
+    Ok(Some(Conn { stream: Some(client), rx: bytes::BytesMut::with_capacity(8192), codec: bgp::PeerCodec::new(), join: Some(join), counter_rx, daemon_open: None, from }))
+}
+
+impl Conn {
+    /// Next message from the daemon; Ok(None) = connection closed by the daemon.
+    pub(crate) async fn read_msg(&mut self) -> Result<Option<bgp::ParsedMessage>, String> {
+        use tokio::io::AsyncReadExt;
+        loop {
+            match self.codec.try_parse(&mut self.rx) {
+                Ok(Some(m)) => return Ok(Some(m)),
+                Ok(None) => {}
+                Err(e) => return Err(format!("harness could not parse what the daemon sent: {e:?}")),
+            }
+            let Some(stream) = self.stream.as_mut() else { return Ok(None) };
+            let mut buf = [0u8; 4096];
+            match tokio::time::timeout(WAIT, stream.read(&mut buf)).await {
+                Err(_) => return Err("timeout reading from the daemon".into()),
+                Ok(Err(_)) | Ok(Ok(0)) => return Ok(None),
+                Ok(Ok(n)) => self.rx.extend_from_slice(&buf[..n]),
+            }
+        }
+    }
+
+    pub(crate) async fn send_bytes(&mut self, b: &[u8]) -> bool {
+        use tokio::io::AsyncWriteExt;
+        match self.stream.as_mut() {
+            Some(s) => s.write_all(b).await.is_ok(),
+            None => false,
+        }
+    }
+
+    pub(crate) async fn send(&mut self, msg: &bgp::Message) -> bool {
+        let mut buf = bytes::BytesMut::with_capacity(4096);
+        if self.codec.encode_to(msg, &mut buf).is_err() {
+            machinery("harness could not encode its own message".into());
+            return false;
+        }
+        self.send_bytes(&buf).await
+    }
+
+    /// OPEN exchange as the remote speaker: read the daemon's OPEN, send ours,
+    /// read its KEEPALIVE, send ours, then a barrier.  Ok(false): the daemon
+    /// closed the connection / sent a NOTIFICATION instead.
+    pub(crate) async fn establish(&mut self, asn: u32, id: u32, hold: u16, caps: Vec<packet::Capability>) -> Result<bool, String> {
+        let open = match self.read_msg().await? {
+            Some(bgp::ParsedMessage::Open(o)) => o,
+            Some(_) => return Err("daemon's first message is not an OPEN".into()),
+            None => return Ok(false),
+        };
+        let mut mine = bgp::PeerCodec::negotiate(&caps, &open.capability);
+        std::mem::swap(&mut self.codec, &mut mine);
+        self.daemon_open = Some(open);
+        let my_open = bgp::Message::Open(bgp::Open { as_number: asn, holdtime: HoldTime::new(hold).unwrap(), router_id: id, capability: caps });
+        // OPEN is encoded identically by every codec
+        if !self.send(&my_open).await {
+            return Ok(false);
+        }
+        loop {
+            match self.read_msg().await? {
+                Some(bgp::ParsedMessage::Keepalive) => break,
+                Some(bgp::ParsedMessage::Notification(_)) | None => return Ok(false),
+                Some(_) => {}
+            }
+        }
+        if !self.send(&bgp::Message::Keepalive).await {
+            return Ok(false);
+        }
+        Ok(self.barrier().await)
+    }
+
+    /// "Everything I sent has been processed": send a KEEPALIVE and wait until
+    /// the session's receive counter has counted it (frames are handled in order).
+    pub(crate) async fn barrier(&mut self) -> bool {
+        let before = self.counter_rx.keepalive.load(Ordering::Relaxed);
+        if !self.send(&bgp::Message::Keepalive).await {
+            return false;
+        }
+        let t0 = std::time::Instant::now();
+        loop {
+            if self.counter_rx.keepalive.load(Ordering::Relaxed) > before {
+                return true;
+            }
+            if self.join.as_ref().is_some_and(|j| j.is_finished()) {
+                return false;
+            }
+            if t0.elapsed() > WAIT {
+                machinery("barrier: the session did not count the KEEPALIVE within the time limit".into());
+                return false;
+            }
+            tokio::time::sleep(Duration::from_micros(200)).await;
+        }
+    }
+
+    /// Close our end (optionally) and wait for the session task to finish.
+    pub(crate) async fn wait_end(&mut self, close: bool) {
+        if close {
+            self.stream = None;
+        }
+        if let Some(j) = self.join.take() {
+            match tokio::time::timeout(WAIT, j).await {
+                Ok(_) => {}
+                Err(_) => machinery("session task did not end within the time limit".into()),
+            }
+        }
+        self.stream = None;
+    }
+
+    pub(crate) fn ended(&self) -> bool {
+        self.join.as_ref().is_none_or(|j| j.is_finished())
+    }
+}
+
+/// Let spawned tasks (timer handlers) run until `done()` holds.
+pub(crate) async fn settle(mut done: impl FnMut() -> bool, what: &str) {
+    let t0 = std::time::Instant::now();
+    loop {
+        if done() {
+            return;
+        }
+        if t0.elapsed() > WAIT {
+            machinery(format!("settle: '{what}' did not happen within the time limit"));
+            return;
+        }
+        tokio::time::sleep(Duration::from_micros(200)).await;
+    }
+}
